@@ -25,7 +25,9 @@ APPLY = ["apply.entry", "apply.batch.done", "apply.raftdone"]
 SNAP = ["snap.checkpoint.started", "snap.data", "snap.created", "snap.file", "snap.saved",
         "snap.walsynced", "snap.walreleased", "snap.state", "snap.compacted"]
 RESTART = ["restart.snaploaded", "restart.restored", "restart.replayed", "purge.file"]
-INSTALL = ["apply.snapshot.prepared", "persist.snap", "snap.install.released", "apply.snapshot.restored"]
+# hooks passed while a lagging follower installs the leader's snapshot (each is passed once per install, so k = 1);
+# snap.file lies inside SaveSnap between the snapshot file and its WAL marker
+INSTALL = ["apply.snapshot.prepared", "snap.file", "persist.snap", "snap.install.released", "apply.snapshot.restored"]
 
 # raft-goroutine action of ZNode -> the hook that follows it in processReady
 HOOK_AFTER = {"TakeReady": "ready.published", "Publish": "ready.published", "WalSave": "persist.wal",
@@ -62,12 +64,14 @@ def model_stage(ctx, stats, pre=None):
                  ("q3_MC_ZNode_follower.cfg", 2, 600), ("MC_ZNode_single_acked.cfg", 1, 300)]
     else:
         items = [("MC_ZNode_single_safe.cfg", 4, 900), ("MC_ZNode_leader.cfg", 4, 1200),
-                 ("MC_ZNode_single_acked.cfg", 1, 300), ("MC_ZNode_follower.cfg", 6, 1800), ("MC_ZNode_single_deep.cfg", 4, 900)]
+                 ("MC_ZNode_single_acked.cfg", 1, 300), ("MC_ZNode_follower.cfg", 6, 1800), ("MC_ZNode_single_deep.cfg", 4, 900),
+                 # install path of a follower (3 operations): the design, and the two orders of the code that refute it
+                 ("MC_ZNode_install.cfg", 4, 1200), ("MC_ZNode_install_torn.cfg", 1, 600), ("MC_ZNode_install_code.cfg", 2, 900)]
     pre = pre or {}
     res = dict(V.parallel(one, [it for it in items if it[0] not in pre], n=len(items)))
     res.update(pre)
     for cfg, _, _ in items:
-        if "acked" in cfg or "deep" in cfg:
+        if "acked" in cfg or "deep" in cfg or "install_" in cfg:
             continue
         V.require_model_ok(ctx, N.soften(res[cfg]), cfg)
         runs.append(dict(cfg=cfg, **res[cfg].summary()))
@@ -90,6 +94,25 @@ def model_stage(ctx, stats, pre=None):
         if deep.violated != "PurgeKeepsRestorable" and not N.soften(deep).timed_out:
             raise V.Inconclusive("MC_ZNode_single_deep: expected PurgeKeepsRestorable to be refuted, got %s" % deep.violated)
         stats["orphan_counterexample"] = N.action_labels(deep.out)[-8:]
+    for cfg, what in (("MC_ZNode_install_torn.cfg", "restore copies files in place (known finding c06-torn-restore-blocks-engine-open)"),
+                      ("MC_ZNode_install_code.cfg", "latest-snapshot index moves before the hard state is saved (suspicion, not replayed)")):
+        if cfg in res:
+            r = N.soften(res[cfg])
+            runs.append(dict(cfg=cfg, expected="refuted: " + what, **r.summary()))
+            if not r.timed_out and r.violated not in ("PurgeKeepsRestorable", "Recoverable"):
+                raise V.Inconclusive("%s: expected a restorability invariant to be refuted, got %s" % (cfg, r.violated or r.error))
+            stats.setdefault("install_counterexamples", {})[cfg] = N.action_labels(r.out)[-10:]
+    if not ctx.quick():
+        # the install path's own guard: restore only after the snapshot is persisted
+        p = os.path.join(ctx.sub("mutcfg"), "zz_inst.cfg")
+        open(p, "w").write(open(os.path.join(V.VERIF, "spec", "MC_ZNode_install.cfg")).read().replace('Mutant = ""', 'Mutant = "RestoreBeforePersist"'))
+        r = N.soften(V.tlc(ctx, "MC_ZNode", "zz_inst.cfg", workers=2, timeout=600, tag="mut-RestoreBeforePersist", files={p: "zz_inst.cfg"}))
+        if r.timed_out:
+            ctx.skipped += 1
+        elif not r.violated:
+            raise V.Inconclusive("spec mutant RestoreBeforePersist was not refuted")
+        else:
+            stats["spec_mutants_refuted"].append("RestoreBeforePersist" if r.violated == "InstalledDurable" else "RestoreBeforePersist (by %s)" % r.violated)
     if not ctx.quick():
         # spec mutants: each removes one guard and must be refuted by the named invariant
         base = open(os.path.join(V.VERIF, "spec", "MC_ZNode_single_safe.cfg")).read()
@@ -166,6 +189,7 @@ def classify(ctx, events, v, n, tag, trace_path):
         # answered from a local pre-check without going through raft?
         sig["shortcut"] = e.get("res") == 0 and op.get("t") in ("lpop", "rpop", "setnx")
         sig["del_zero"] = e.get("res") == 0 and op.get("t") == "del"
+        sig["read"] = op.get("t") in ("get", "hget", "llen")
     return sig, "line %s cannot be a step: %s" % (v["hw"], json.dumps(e))
 
 
@@ -225,7 +249,7 @@ def run(ctx):
         # snap.install.released races with the restore of the installed snapshot: known finding
         # c06-torn-restore-blocks-engine-open, isolate stage only
         gen_install = [p for p in INSTALL if p != "snap.install.released"]
-        for p in (gen_install if not ctx.quick() else [gen_install[ctx.seed % 3]]):
+        for p in (gen_install if not ctx.quick() else [gen_install[ctx.seed % len(gen_install)]]):
             add("i3-%s-%s" % (eng, p), 3, eng, "install", ["-point", p], iso=(eng == "pebble"))
         if eng == "mem":
             add("isolate-torn-restore", 3, "mem", "install", ["-point", "snap.install.released"], iso=True)
@@ -422,6 +446,7 @@ def run(ctx):
         model_runs=stats.get("model_runs"),
         s2_model_counterexample=stats.get("s2_counterexample"), s2_replay_schedule=stats.get("s2_replay"),
         orphan_model_counterexample_tail=stats.get("orphan_counterexample"),
+        install_model_counterexample_tails=stats.get("install_counterexamples"),
         isolate=stats.get("isolate"),
         spec_mutants_refuted=stats["spec_mutants_refuted"], binding_selftest_rejected=stats["selftest"],
         scenarios=stats["scenarios"], accepted=stats["accepted"], rejected=stats["rejected"],
